@@ -6,7 +6,13 @@ import GcArena.Proofs.ProtRun
 namespace GcArena
 
 /-- Operations that change neither the heap nor the root: entering / leaving callbacks, reads,
-    `downgrade`, `upgrade`, `is_dropped`, `is_dead`, pacing and debt knobs. -/
+    `downgrade`, `upgrade`, `is_dropped`, `is_dead`, pacing and debt knobs.
+    `enter mutateRoot` counts as an observer although `mutate_root` calls `root_barrier()`: that
+    only sets `root_needs_trace` (Marked → Marking, the root is traced once more); it changes no
+    object, no colour, no list and not the root, which is all `Tight` and reachability read
+    (`stepBody_observer`: `HeapView` + same root).  An *actual* replacement of a root field is
+    `rootStore`, which is not an observer.  Re-tracing an unchanged root marks only what is
+    reachable, so tightness survives (`markOne_tight` covers the root trace). -/
 def Op.isObserver : Op → Bool
   | .setPacing _ | .adjustDebt _ | .enter _ | .leave | .readRoot _ | .read _ _ | .downgrade _
   | .upgrade _ | .isDropped _ | .isDead _ => true
